@@ -461,6 +461,20 @@ pub fn check_c04_with(payload: &Doc, out: &Outcome, tag_exempt: &[String], ambig
                             ));
                         }
                     } else if let Some(fl) = frame_loc {
+                        // a report made by this very container below itself (a failed field
+                        // conversion held by a field-level error type): the child is that field,
+                        // so the hand-over names a position below the container, never the
+                        // container's own. (Positions between the two are not constrained here:
+                        // a frame may hold nested containers that are not probed, e.g. the
+                        // recursive impl for serde_json::Value.)
+                        if stack[..] == here[..] && !user_made.contains(oid) && loc == fl && rloc.len() > fl.len() {
+                            return Err(format!(
+                                "report made at {} by the container at {} was handed over to the container's error type at {}",
+                                loc_str(rloc),
+                                loc_str(fl),
+                                loc_str(loc)
+                            ));
+                        }
                         if !is_prefix(fl, loc) {
                             return Err(format!(
                                 "hand-over at {} made by the container at {}",
